@@ -244,16 +244,26 @@ pub fn hash_colliders(n: usize) -> Vec<String> {
 /// `n` names "hcolli-<k>.txt" whose 16-bit hash is exactly `h` (the boundary values of the hash range: the alias
 /// generator increments the hash after every nine collisions and has to wrap around)
 pub fn hash_colliders_at(h: u16, n: usize) -> Vec<String> {
-    let mut v = Vec::new();
-    for i in 0..40_000_000u32 {
-        let name = format!("hcolli-{:07}.txt", i);
-        if bsd16(&name) == h {
+    // "hcolli-<12 pseudo-random letters/digits>.txt": the tail is varied by a fixed linear congruential sequence so
+    // that every 16-bit hash value is reachable (a plain counter reaches only a few hundred values)
+    let letters = b"abcdefghijklmnopqrstuvwxyz0123456789";
+    let mut v: Vec<String> = Vec::new();
+    let mut state = 0x2545_F491_4F6C_DD1Du64 ^ h as u64;
+    for _ in 0..60_000_000u64 {
+        let mut name = String::from("hcolli-");
+        for _ in 0..12 {
+            state = state.wrapping_mul(6_364_136_223_846_793_005).wrapping_add(1_442_695_040_888_963_407);
+            name.push(letters[(state >> 33) as usize % letters.len()] as char);
+        }
+        name.push_str(".txt");
+        if bsd16(&name) == h && !v.contains(&name) {
             v.push(name);
             if v.len() >= n {
                 break;
             }
         }
     }
+    assert!(v.len() >= n, "only {} names with hash {h:#06x} found", v.len());
     v
 }
 
